@@ -13,6 +13,7 @@ import QrlewModel.Model.Rel
 import QrlewModel.Model.Quote
 import QrlewModel.Model.Namer
 import QrlewModel.Model.Total
+import QrlewModel.Model.Split
 import QrlewModel.Generated.Dialects
 /-!
 JSON-lines driver over the executable model.  One input line = one harness line
@@ -423,6 +424,65 @@ def runArith (c aux : Json) : Option Json := do
     | "iminus" => pure (hullJson (Total.wholeImage? (fun x y => some (Total.satSub x y)) a b c' d))
     | _ => none
 
+def fnOf? (s : String) : Option Split.Fn :=
+  match s with | "plus" => some .plus | "minus" => some .minus | "times" => some .times | "abs" => some .abs | "neg" => some .neg | _ => none
+def fnName : Split.Fn → String | .plus => "plus" | .minus => "minus" | .times => "times" | .abs => "abs" | .neg => "neg"
+def aggOf? (s : String) : Option Split.Agg :=
+  match s with | "sum" => some .sum | "count" => some .count | "min" => some .min | "max" => some .max | _ => none
+def aggName : Split.Agg → String | .sum => "sum" | .count => "count" | .min => "min" | .max => "max"
+
+partial def sOfJson? (j : Json) : Option Split.S := do
+  let tag ← (j.getArrVal? 0).toOption >>= fun t => t.getStr?.toOption
+  match tag with
+  | "col" => do let i ← (j.getArrVal? 1).toOption >>= jInt?; pure (.col i.toNat)
+  | "lit" => do let n ← (j.getArrVal? 1).toOption >>= jInt?; pure (.lit n)
+  | "app1" => do
+    let f ← (j.getArrVal? 1).toOption >>= fun t => t.getStr?.toOption >>= fnOf?
+    pure (.app1 f (← (j.getArrVal? 2).toOption >>= sOfJson?))
+  | "app2" => do
+    let f ← (j.getArrVal? 1).toOption >>= fun t => t.getStr?.toOption >>= fnOf?
+    pure (.app2 f (← (j.getArrVal? 2).toOption >>= sOfJson?) (← (j.getArrVal? 3).toOption >>= sOfJson?))
+  | _ => none
+
+partial def aOfJson? (j : Json) : Option Split.A := do
+  let tag ← (j.getArrVal? 0).toOption >>= fun t => t.getStr?.toOption
+  match tag with
+  | "agg" => do
+    let g ← (j.getArrVal? 1).toOption >>= fun t => t.getStr?.toOption >>= aggOf?
+    pure (.agg g (← (j.getArrVal? 2).toOption >>= sOfJson?))
+  | "lit" => do let n ← (j.getArrVal? 1).toOption >>= jInt?; pure (.lit n)
+  | "app1" => do
+    let f ← (j.getArrVal? 1).toOption >>= fun t => t.getStr?.toOption >>= fnOf?
+    pure (.app1 f (← (j.getArrVal? 2).toOption >>= aOfJson?))
+  | "app2" => do
+    let f ← (j.getArrVal? 1).toOption >>= fun t => t.getStr?.toOption >>= fnOf?
+    pure (.app2 f (← (j.getArrVal? 2).toOption >>= aOfJson?) (← (j.getArrVal? 3).toOption >>= aOfJson?))
+  | _ => none
+
+def sToJson : Split.S → Json
+  | .col i => Json.arr #[Json.str "col", Json.num (JsonNumber.fromNat i)]
+  | .lit n => Json.arr #[Json.str "lit", Json.num (JsonNumber.fromInt n)]
+  | .app1 f a => Json.arr #[Json.str "app1", Json.str (fnName f), sToJson a]
+  | .app2 f a b => Json.arr #[Json.str "app2", Json.str (fnName f), sToJson a, sToJson b]
+
+def refToJson (k : Split.Agg × Split.S) : Json := Json.arr #[Json.str "ref", Json.str (aggName k.1), sToJson k.2]
+
+def pToJson : Split.P (Split.Agg × Split.S) → Json
+  | .ref k => refToJson k
+  | .lit n => Json.arr #[Json.str "lit", Json.num (JsonNumber.fromInt n)]
+  | .app1 f a => Json.arr #[Json.str "app1", Json.str (fnName f), pToJson a]
+  | .app2 f a b => Json.arr #[Json.str "app2", Json.str (fnName f), pToJson a, pToJson b]
+
+def sortedSet (l : List String) : List String := (l.mergeSort (fun a b => decide (a ≤ b))).eraseDups
+
+/-- the three layers of a select item, intermediate columns named by their content -/
+def runSplit (c : Json) : Option Json := do
+  let a ← (c.getObjVal? "item").toOption >>= aOfJson?
+  let aggs := sortedSet ((Split.aggs a).map fun k => (refToJson k).compress)
+  let pre := sortedSet ((Split.pre a).map fun s => (sToJson s).compress)
+  pure (Json.mkObj [("post", pToJson (Split.post id a)), ("aggs", Json.arr (aggs.map Json.str).toArray),
+    ("pre", Json.arr (pre.map Json.str).toArray), ("group_by", Json.num (JsonNumber.fromNat 0))])
+
 def runValues (c : Json) : Option Json := do
   let vs ← (c.getObjVal? "vals").toOption >>= fun a => a.getArr?.toOption
   let ns ← vs.toList.mapM jInt?
@@ -444,6 +504,7 @@ def handle (line : String) : Json :=
       | "limit" => runLimit c
       | "sizes" => runSizes c
       | "values" => runValues c
+      | "split" => runSplit c
       | "arith" => runArith c ((j.getObjVal? "aux").toOption.getD Json.null)
       | "namer" => runNamer c ((j.getObjVal? "aux").toOption.getD Json.null)
       | "clip" => runClip c ((j.getObjVal? "aux").toOption.getD Json.null)
